@@ -482,12 +482,30 @@ func doernerRules(secret, public, setup interface{}, chainKey []byte) []string {
 	return r.broken
 }
 
+// setupSizeRule: an OT setup is a fixed-size block of byte arrays; the encoding's Setup field must
+// have exactly the size of the block the restored object holds (a longer field means the decoder
+// ignored part of what was stored - wrong-size material, e.g. the other role's setup).
+func setupSizeRule(broken []string, setup interface{}, input []byte) []string {
+	var m map[string]cbor.RawMessage
+	if cbor.Unmarshal(input, &m) != nil {
+		return broken
+	}
+	var b []byte
+	if raw, ok := m["Setup"]; !ok || cbor.Unmarshal(raw, &b) != nil {
+		return broken
+	}
+	if mem := rawMemory(setup); mem != nil && len(b) != len(mem) {
+		broken = append(broken, "OT setup of the wrong size (the encoding's Setup field is not exactly as long as the setup block of this role)")
+	}
+	return broken
+}
+
 func doernerRRules(c *doerner.ConfigReceiver, input []byte) []string {
-	return doernerRules(c.SecretShare, c.Public, c.Setup, c.ChainKey)
+	return setupSizeRule(doernerRules(c.SecretShare, c.Public, c.Setup, c.ChainKey), c.Setup, input)
 }
 
 func doernerSRules(c *doerner.ConfigSender, input []byte) []string {
-	return doernerRules(c.SecretShare, c.Public, c.Setup, c.ChainKey)
+	return setupSizeRule(doernerRules(c.SecretShare, c.Public, c.Setup, c.ChainKey), c.Setup, input)
 }
 
 // ---- wire message ---------------------------------------------------------------------------------
